@@ -313,3 +313,94 @@ def map_history(rng, length, sids=None):
         g.hist.append((MSK, [sid]))
     g.hist.append((DROPW, []))
     return g.hist
+
+
+def purge_history(rng, nsids=None):
+    """C05: creations with components, insertions, every deletion path (immediate, deferred, batch
+    with a failing element, delete_all, dropped builders), observation of every storage after every
+    deletion and after every creation that follows (the inherited-component symptom needs a reuse)."""
+    g = Gen(rng)
+    n = nsids if nsids is not None else rng.choice([1, 2, 3, 5, 16])
+    sids = rng.sample(range(16), n)
+    early = sids[: max(1, n - rng.randint(0, min(2, n - 1)))]
+    late = sids[len(early):]
+    for sid in early:
+        g.register(sid)
+
+    def observe(handles=None):
+        for sid in g.regs:
+            g.hist.append((MSK, [sid]))
+        hs = handles if handles is not None else (rng.sample(range(g.nh), min(g.nh, 3)) if g.nh else [])
+        for h in hs:
+            for sid in rng.sample(g.regs, min(len(g.regs), 3)):
+                g.hist.append((rng.choice([GET, CONT]), [sid, h]))
+
+    for _ in range(rng.randint(2, 6)):
+        g.hist.append((wg.C, g.comps(4)))
+        g.created(1)
+    rounds = rng.randint(2, 5)
+    for _ in range(rounds):
+        if late and rng.random() < 0.5:
+            g.register(late.pop())
+        # some inserts
+        for _ in range(rng.randint(0, 4)):
+            if g.live:
+                sid = rng.choice(g.regs)
+                u, v = g.tok(sid)
+                g.hist.append((INS, [sid, rng.choice(g.live), u, v]))
+        # a deletion by a random path
+        k = rng.random()
+        if k < 0.2 and g.live:
+            h = rng.choice(g.live)
+            g.hist.append((wg.D, [h]))
+            g.kill(h)
+        elif k < 0.4 and g.live:
+            h = rng.choice(g.live)
+            g.hist.append((wg.ED, [h]))
+            g.kill(h)
+            if rng.random() < 0.8:
+                g.hist.append((wg.M, []))
+        elif k < 0.7 and g.live:
+            batch = rng.sample(g.live, min(len(g.live), rng.randint(1, 3)))
+            if rng.random() < 0.5:
+                bad = rng.choice(g.dead) if (g.dead and rng.random() < 0.5) else batch[0]
+                batch.insert(rng.randint(1, len(batch)), bad)
+            g.hist.append((wg.DM, batch))
+            # the handles after a failing element stay alive: recompute pessimistically
+            seen = []
+            for h in batch:
+                if h in g.dead or h in seen:
+                    break
+                seen.append(h)
+            for h in seen:
+                g.kill(h)
+        elif k < 0.8:
+            g.hist.append((wg.DA, []))
+            g.dead.extend(g.live)
+            g.live = []
+        elif k < 0.9:
+            g.hist.append((wg.CX, g.comps(3)))
+            g.created(1, alive=False)
+            g.hist.append((wg.M, []))
+        else:
+            g.hist.append((wg.EB, [0] + g.comps(3)))
+            g.created(1, alive=False)
+            g.hist.append((wg.M, []))
+        observe()
+        # creations that reuse the freed indices
+        new = []
+        for _ in range(rng.randint(1, 3)):
+            kk = rng.random()
+            if kk < 0.5:
+                g.hist.append((wg.C, []))
+            elif kk < 0.8:
+                g.hist.append((wg.EC, []))
+            else:
+                g.hist.append((wg.CI, [1]))
+            new.append(g.nh)
+            g.created(1)
+        observe(new)
+        if rng.random() < 0.4:
+            g.hist.append((wg.M, []))
+    g.hist.append((DROPW, []))
+    return g.hist
